@@ -207,14 +207,9 @@ def run_case(b):
     import sageopt.coniclifts as cl
     from sageopt.coniclifts.base import ScalarVariable
     ser = [clm.ser_con(c) for c in b.cons]
-    # Variables the constraints themselves report (Constraint.variables(), before compilation) + epigraph Variables
-    occ, seen = [], set()
-    for c in b.cons:
-        for v in c.variables():
-            if id(v) not in seen:
-                seen.add(id(v))
-                occ.append(v)
-    cand = [clm.var_info(v) for v in occ] + clm.epi_vars(ser)
+    # candidates: the declared user Variables + epigraph Variables of the atoms.  (Constraint.variables() is NOT called
+    # here: it runs remove_zeros() on the constraint's expressions, i.e. it changes the state that is being compiled.)
+    cand = [clm.var_info(v) for v in b.vars] + clm.epi_vars(ser)
     dummy = int(ScalarVariable.curr_variable_count()) - 1
     gen = b.vars[0].generation
     for v in cand:
@@ -247,8 +242,10 @@ def sample_sigmas(case, rng, k):
             out.append({i: 0.0 for i in ids})
         elif mode < 0.7:
             out.append({i: float(rng.randint(-2, 2)) for i in ids})
-        else:
+        elif mode < 0.9 or k < 50:
             out.append({i: rng.randint(-8, 8) / 4.0 for i in ids})
+        else:
+            out.append({i: rng.randint(-24, 24) / 8.0 for i in ids})
     return out
 
 
@@ -416,6 +413,7 @@ def run(ctx):
         cases.append(case)
         outs.append(out)
     mouts = run_driver([model_line(c) for c in cases])
+    deep_left = [25]
     for c, io, mo in zip(cases, outs, mouts):
         if isinstance(mo, dict) and 'error' in mo:
             raise common.DriverError(mo['error'])
@@ -434,11 +432,19 @@ def run(ctx):
         else:
             a = clm.canon_impl(io, mo.get('eRows', []))
             m = clm.canon_model(mo)
+            # the model maps every candidate Variable; the implementation only those its constraints report
+            extra = set(a['vmap']) - set(m['vmap'])
+            if not extra:
+                m['vmap'] = {k: v for k, v in m['vmap'].items() if k in a['vmap']}
             if common.canon_json(a) != common.canon_json(m):
                 ctx.disagreement('compile', {'cons': c['cons'], 'dummy': c['dummy'], 'vars': c['vars']}, a, m)
             else:
                 ctx.traces_validated += 1
         res = oracle(c, io, rng, nsig=4 if quick else 8)
+        if not res and ctx.disagreements and ctx.disagreements[-1]['case'].get('cons') is c['cons'] and deep_left[0] > 0:
+            # failing-input search on a case where model and implementation disagree: many more points
+            deep_left[0] -= 1
+            res = oracle(c, io, rng, nsig=150)
         if res:
             why, detail, tags = res
             rep = {'case': c, 'observed': io if 'raises' in io else {'K': io['K'], 'cols': io['cols']}, 'detail': detail}
